@@ -19,6 +19,8 @@ def parse (l : String) : Option Line :=
   | ["enter", t] => do pure (.op (.enter (← t.toNat?)))
   | ["fload", k, v] => do pure (.op (.fload (← k.toNat?) (← bool? v)))
   | ["fnet", k, v] => do pure (.op (.fnet (← k.toNat?) (← bool? v)))
+  | ["freq", k] => do pure (.op (.freq (← k.toNat?)))
+  | ["fbody", k, v] => do pure (.op (.fbody (← k.toNat?) (← bool? v)))
   | ["fstore", k] => do pure (.op (.fstore (← k.toNat?)))
   | ["fend", k] => do pure (.op (.fend (← k.toNat?)))
   | ["cancel", t] => do pure (.op (.cancel (← t.toNat?)))
@@ -40,6 +42,7 @@ def render : Out → String
   | .invalid => "invalid"
   | .fetched => "fetched"
   | .neterr => "neterr"
+  | .requested => "requested"
   | .stored => "stored"
   | .double => "double"
   | .ended n ok => s!"ended {n} {if ok then "rc" else "err"}"
@@ -72,7 +75,7 @@ def keyState (s : State) (k : Nat) : String :=
   String.intercalate " " (cells ++ [s!"a={a}", s!"h={s.hits k}"])
 
 def opKey (s : State) : Op → Option Nat
-  | .spawn k | .fload k _ | .fnet k _ | .fstore k | .fend k | .query k => some k
+  | .spawn k | .fload k _ | .fnet k _ | .freq k | .fbody k _ | .fstore k | .fend k | .query k => some k
   | .enter t | .cancel t | .ref t | .val t | .retry t | .init t _ | .close t =>
     match s.tasks[t]? with
     | some p => p.key?
